@@ -10,6 +10,11 @@ CLAIMED = {
    note="Trusted: the harness projection (environment dump, exports are distinguishable integers), the renderer of terms to (import ...) text. Bound: depth<=2 exhaustive (quick 3 exports, thorough 4), random terms to depth 5.",
    technique="TLA+ spec + TLC exhaustive enumeration, replay into the implementation, TLC trace validation",
    ref="DESIGN.md section 5, C12"),
+ "C14": dict(
+   text="Loader.tla models the loader as a state machine (one action per critical section of eval_import_set/get_library/eval_library_definition). TLC checks on every graph of 3 libraries x node kinds x attempt history that no in-progress mark survives an attempt, that each outcome equals the declarative DFS outcome (hence is history-independent), bounded nesting, and termination as a liveness property under fairness; the model with the implementation's original failure path must be rejected. Every explored history is replayed on the real interpreter (registered sources, and files in a directory other than the cwd), comparing outcome and the loader-state hook after each attempt; random larger graphs/histories are recorded and validated by TLC against LoaderTrace.tla, which re-takes the spec's actions and evaluates its invariants at every step.",
+   note="Trusted: rendering of a graph to library sources/files (a faulting body is (car N)), the error-kind projection, hook H2 (read-only). Where the statement does not order competing errors (cycle and failing library both reachable) any of them is accepted. Bound: 3 libraries exhaustive (<=1 faulty node quick), histories <=2 (quick) / 3 (thorough); random graphs to 6 libraries, 6 attempts.",
+   technique="TLA+ state machine + TLC safety and liveness checking, replay of all explored histories, TLC trace validation",
+   ref="DESIGN.md section 5, C14"),
 }
 PENDING_REASON = "no check is registered for this property yet: the specification module and binding for it are still being built (see DESIGN.md section 10); nothing is claimed"
 
